@@ -8,7 +8,7 @@ STUBS = []
 OUTSIDE = ["RigidBody from the make_* factories (micro-bodies of 1-3 tetrahedra are covered)", "poses not on a sweep", "rounding"]
 BOUNDS = {"quick": "12 shapes (+Margin) x {signed-permutation poses with FULLY symbolic translation in [-1000,1000]^3; rotation sweeps about x,y,z (all angles but pi) composed with 2 base orientations}",
           "thorough": "21 shapes x the same, plus every base orientation for the rotation sweeps"}
-WALL_BUDGET = {"quick": 300, "thorough": 900}
+WALL_BUDGET = {"quick": 300, "thorough": 600}
 
 
 class RigidBodyAabb(CC.Scenario):
